@@ -125,14 +125,26 @@ func (p *Proposal) PendingMessage() *PendingMessage {
 }
 
 func (p *Proposal) Message() (*Message, error) {
-	buf := bytes.NewBuffer(p.Data())
+	data, err := p.data()
+	if err != nil {
+		return nil, err
+	}
 	m := new(Message)
-	err := m.ReadFrom(buf)
+	err = m.ReadFrom(bytes.NewBuffer(data))
 	return m, err
 }
 
 // Data returns the decompressed raw message
 func (p *Proposal) Data() []byte {
+	data, err := p.data()
+	if err != nil {
+		panic(err) //TODO: Should return error
+	}
+	return data
+}
+
+// data decompresses the raw message and verifies its integrity (checksum and size).
+func (p *Proposal) data() ([]byte, error) {
 	var r io.ReadCloser
 	var err error
 
@@ -142,17 +154,21 @@ func (p *Proposal) Data() []byte {
 	default:
 		r, err = lzhuf.NewB2Reader(bytes.NewBuffer(p.compressedData))
 	}
-
 	if err != nil {
-		panic(err) //TODO: Should return error
+		return nil, err
 	}
 
 	var buf bytes.Buffer
 	if _, err := io.Copy(&buf, r); err != nil {
-		panic(err) //TODO
+		return nil, err
 	}
 
-	return buf.Bytes()
+	// The checksum and size of the decompressed data is verified on Close.
+	if err := r.Close(); err != nil {
+		return nil, err
+	}
+
+	return buf.Bytes(), nil
 }
 
 func parseProposal(line string, prop *Proposal) (err error) {
